@@ -114,3 +114,45 @@ def _guard_reach(body, l, starts, ys, hit, seen_locals):
             hit.add(b)
         for n in body.succ[b]:
             st.append(n)
+
+
+def guard_blocks(body, l, starts, seen_locals=None, out=None):
+    """Blocks whose terminator executes while the RefCell guard held in local `l` is alive (a whole-local move hands the
+    guard on to the destination; passing it by value to a call ends it after that call)."""
+    seen_locals = set() if seen_locals is None else seen_locals
+    out = set() if out is None else out
+    if l in seen_locals:
+        return out
+    seen_locals.add(l)
+    seen = set()
+    st = list(starts)
+    while st:
+        b = st.pop()
+        if b in seen or b not in body.live:
+            continue
+        seen.add(b)
+        blk = body.blocks[b]
+        dead = False
+        for s in blk['stmts']:
+            if s['k'] == 'dead' and s['l'] == l:
+                dead = True
+                break
+            if s['k'] == 'assign' and s['rv']['k'] == 'use' and 'mv' in s['rv']['op'] and s['rv']['op']['mv']['l'] == l and not place_proj(s['rv']['op']['mv']):
+                if not place_proj(s['lhs']):
+                    guard_blocks(body, s['lhs']['l'], [b], seen_locals, out)
+                dead = True
+                break
+        if dead:
+            continue
+        tt = blk['term']
+        if tt['k'] == 'drop' and tt['place']['l'] == l and not place_proj(tt['place']):
+            continue
+        out.add(b)
+        if tt['k'] == 'call' and any('mv' in a and a['mv']['l'] == l and not place_proj(a['mv']) for a in tt['args']):
+            # handed to the callee by value; a guard-typed result (Ref::map ..) carries it on
+            if tt.get('target') is not None and not place_proj(tt['dest']) and re.search(r'cell::Ref(Mut)?<', body.local_ty(tt['dest']['l']) or ''):
+                guard_blocks(body, tt['dest']['l'], [tt['target']], seen_locals, out)
+            continue
+        for n in body.succ[b]:
+            st.append(n)
+    return out
